@@ -17,6 +17,7 @@ from harness.lib.core import BUILD, VERIF, REPO, source_sha, coqc_file
 from harness.props import c20_writer as W
 from harness.props import c20_gen as G
 from harness.props import c20_run as R
+from harness.props import c20_lst as L
 
 LEVEL = 'proof'
 
@@ -39,9 +40,9 @@ FTAGS = {
 CORR = (1, 2, 3, 4, 5, 6, 7, 9)
 # oracle tag -> (correspondence tags that must be absent, guard tag that must be present, finding id)
 ORACLE_F = {
-    11: ((1, 2), None, None), 12: ((3,), None, None), 13: ((3,), None, None),
-    14: ((4,), None, None), 15: ((4,), None, None), 16: ((4,), None, None), 17: ((4,), None, None),
-    18: ((4,), None, None), 19: ((6,), None, None), 20: ((7,), None, None),
+    11: ((1, 2), None, None), 12: ((3,), None, None), 13: ((3,), 206, 'C20-FORTRAN-EXP3'),
+    14: ((4,), 206, 'C20-FORTRAN-EXP3'), 15: ((4,), 206, 'C20-FORTRAN-EXP3'), 16: ((4,), 206, 'C20-FORTRAN-EXP3'),
+    17: ((4,), None, None), 18: ((4,), 206, 'C20-FORTRAN-EXP3'), 19: ((6,), None, None), 20: ((7,), None, None),
 }
 
 
@@ -140,6 +141,8 @@ def wnum_term(x):
         return f'(WSci {ct.boolean(x[1])} {T(x[2])} {ct.boolean(x[3])} {T(x[4])})'
     if k == 'f':
         return f'(WFix {ct.boolean(x[1])} {T(x[2])} {T(x[3])})'
+    if k == 'x':
+        return f'(WStr {T(W.num_text(x))})'
     return f'(WStr {T(x[1])})'
 
 
@@ -333,14 +336,16 @@ def run(ctx):
         'harness/props/c20.py, c20_gen.py, c20_run.py, c20_writer.py: generator, export of real pandas objects to Gallina terms, classification',
         'harness/lib/coqterm.py printers',
         'pandas.read_table(sep=\\s+, engine=c, float_precision=round_trip) as described by Model.read_frame (validated by the correspondence)',
+        'harness/props/c20_lst.py: lst writer / generator / observation of NONMEMResultsFile',
     ]
     ctx.assumptions += [
         'ASCII files; numbers within the binary64 normal range; pandas is an engine described by an executable contract (tokens, NA strings, column typing), inputs outside the contract are counted inconclusive',
         'np.linalg.inv / eig / svd (LAPACK) are not modelled: the relations cov*coi = I and cor = D^-1 cov D^-1 are checked on the outputs by exact rational arithmetic with a stated tolerance',
-        'the .lst free-text parser (results_file.py) is only exercised on what the synthetic writer emits; its outputs (covstatus, table numbers) are inputs of the model',
+        'the .lst parser (results_file.py) is modelled for the fixed-format facts (C20/Lst.v: termination, covariance status, estimation time, method, version gate); parse_runtime (dates, total run time) and log_items are not; at run level covstatus is still an input of the model',
         'math.sqrt in triangular_root is a float engine: exact for every argument 2x < 2^52 and for every triangular number below 2^53 (checked in the tie); the model uses the integer square root',
     ]
-    ctx.coverage['source_sha'] = source_sha('src/pharmpy/model/external/nonmem/table.py',
+    ctx.coverage['source_sha'] = source_sha('src/pharmpy/tools/external/nonmem/results_file.py',
+                                            'src/pharmpy/model/external/nonmem/table.py',
                                             'src/pharmpy/tools/external/nonmem/results.py',
                                             'src/pharmpy/internals/math.py', 'src/pharmpy/modeling/math.py')
     ctx.log('build gate done')
@@ -349,24 +354,29 @@ def run(ctx):
     ctx.log('finding probes done')
     reg = sorted((VERIF / 'regress' / 'C20').glob('*.json'))
     regs = [json.loads(p.read_text()) for p in reg]
-    nf = 220 if ctx.tier == "quick" else 3600
-    nr = 76 if ctx.tier == "quick" else 1100
-    fspecs = [s for s in regs if s.get('level') != 'run'] + [G.gen_fspec(ctx.rng) for _ in range(nf)]
+    nf = 150 if ctx.tier == "quick" else 1500
+    nr = 48 if ctx.tier == "quick" else 450
+    nl = 60 if ctx.tier == 'quick' else 500
+    fspecs = [s for s in regs if s.get('level') not in ('run', 'lst')] + [G.gen_fspec(ctx.rng) for _ in range(nf)]
     rspecs = [s for s in regs if s.get('level') == 'run'] + [G.gen_rspec(ctx.rng) for _ in range(nr)]
+    lspecs = [s for s in regs if s.get('level') == 'lst'] + [L.gen_lspec(ctx.rng) for _ in range(nl)]
     verdicts, infos, stats = run_fspecs(ctx, fspecs, 'files')
     ctx.log('file level done')
     rverdicts, rinfos, rstats = R.run_rspecs(ctx, rspecs, 'runs')
     ctx.log('run level done')
+    lverdicts, linfos, lstats = L.run_lspecs(ctx, lspecs, 'lst')
+    ctx.log('lst level done')
     R.float_engine_checks(ctx)
-    ctx.coverage['evaluations'] = len(fspecs) + len(rspecs)
-    distinct = {file_text(s) for s in fspecs if len(file_text(s)) > 200} | {json.dumps(s, sort_keys=True) for s in rspecs}
+    ctx.coverage['evaluations'] = len(fspecs) + len(rspecs) + len(lspecs)
+    distinct = {file_text(s) for s in fspecs if len(file_text(s)) > 200} | {json.dumps(s, sort_keys=True) for s in rspecs} | {L.lst_text(s) for s in lspecs}
     ctx.coverage['distinct_nontrivial'] = len(distinct)
-    ctx.coverage['programs'] = len(fspecs) + len(rspecs)
+    ctx.coverage['programs'] = len(fspecs) + len(rspecs) + len(lspecs)
     ctx.coverage['rule'] = ('table files (ext/phi/cov/cor/coi/$TABLE) rendered by the reference writer for random parameter '
                             'configurations (1-6 thetas, omega/sigma blocks, fixed entries, 1-3 estimation steps, special iteration '
-                            'codes, repeated headers, several tables, CRLF) plus a malformed stream (text mutations), and run '
+                            'codes, repeated headers, several tables, CRLF) plus a malformed stream (text mutations), .lst files (termination, '
+                            'covariance status, run time lines; 40 % mutated), and run '
                             'directories read by read_modelfit_results; non-trivial = more than 200 characters; distinct by file text')
-    ctx.coverage['case_status'] = {'files': stats, 'runs': rstats}
+    ctx.coverage['case_status'] = {'files': stats, 'runs': rstats, 'lst': lstats}
     kinds = {}
     for s in fspecs:
         key = (s['suffix'] or 'table') + ('/raw' if s.get('raw') is not None else '')
@@ -381,11 +391,15 @@ def run(ctx):
         'table_without_label_line': sum(1 for v in verdicts if 203 in v),
         'written_files': sum(1 for s in fspecs if s.get('raw') is None),
         'in_domain_of_parse_render_theorem': sum(1 for v in verdicts if 210 in v),
+        'fortran_three_digit_exponent': sum(1 for v in verdicts if 206 in v),
         'run_dirs': R.distribution(rspecs, rverdicts, rinfos),
+        'lst_files': {'n': len(lspecs), 'malformed': sum(1 for i in linfos if i['raw']),
+                      'impl_raises': sum(1 for i in linfos if i['exc'])},
     }
     ctx.coverage['samples'] = ([{'spec': _short(s), 'tags': v} for s, v in list(zip(fspecs, verdicts))[-3:]]
                                + [{'spec': _short(s), 'tags': v} for s, v in list(zip(rspecs, rverdicts))[-2:]])
     shutil.rmtree(ctx.rundir / 'files', ignore_errors=True)
+    shutil.rmtree(ctx.rundir / 'lst', ignore_errors=True)
 
 
 def _short(spec):
@@ -396,7 +410,10 @@ def _short(spec):
 def replay(ctx, rep):
     _latest_findings(ctx)
     spec = rep['spec']
-    if spec.get('level') == 'run':
+    if spec.get('level') == 'lst':
+        tags = L.run_lspecs(ctx, [spec], 'replay', quiet=True)[0][0]
+        names = L.LTAGS
+    elif spec.get('level') == 'run':
         tags = R.run_rspecs(ctx, [spec], 'replay', quiet=True)[0][0]
         names = R.RTAGS
     else:
